@@ -30,6 +30,9 @@ pub enum S17 {
     ServerFrame,
     ClientFrame { client: u8 },
     Release { client: u8, to_server: bool, what: Rel },
+    /// The connection of one client goes away (both directions closed, bytes in flight stay in flight).
+    #[serde(alias = "close")]
+    Close { client: u8 },
 }
 
 #[derive(Serialize, Deserialize, Clone, Debug, PartialEq)]
@@ -205,6 +208,7 @@ impl C17 {
 
         let mut sent_c: Vec<[Vec<u32>; 2]> = vec![Default::default(); n];
         let mut dead = false;
+        let mut closed = vec![false; n];
         let total_steps = t.steps.len();
         let mut epilogue: Vec<S17> = vec![];
         for _ in 0..4 {
@@ -289,6 +293,14 @@ impl C17 {
                         stats.nontrivial_sigs.insert(((got.min(40) as u64) << 8) | 2);
                     }
                 }
+                S17::Close { client } => {
+                    let c = *client as usize % n;
+                    if n >= 2 && !closed[c] {
+                        control::close(c);
+                        closed[c] = true;
+                        stats.fault("peer_gone");
+                    }
+                }
                 S17::Release { client, to_server, what } => {
                     let c = *client as usize % n;
                     let pending = control::pending(c, *to_server);
@@ -326,7 +338,7 @@ impl C17 {
                 for ty in 0..3u8 {
                     let recv: Vec<u32> = got.iter().filter(|x| x.0 == ty).map(|x| x.1).collect();
                     let sent = &sent_s[ty as usize];
-                    check_lists(&mut violations, end, &format!("server->client {c} type {ty}"), sent, &recv, true);
+                    check_lists(&mut violations, end, &format!("server->client {c} type {ty}"), sent, &recv, true, !closed[c]);
                 }
                 if let Some(bad) = got.iter().find(|x| !x.2) {
                     viol(end, "payload_changed", format!("client {c} received seq {} (type {}) with a changed payload", bad.1, bad.0), &mut violations);
@@ -343,7 +355,7 @@ impl C17 {
                 for ty in 0..2u8 {
                     let sent = &sent_c[c][ty as usize];
                     let recv: Vec<u32> = got.iter().filter(|x| x.0 == ty && sent.contains(&x.1)).map(|x| x.1).collect();
-                    check_lists(&mut violations, end, &format!("client {c}->server type {ty}"), sent, &recv, true);
+                    check_lists(&mut violations, end, &format!("client {c}->server type {ty}"), sent, &recv, true, !closed[c]);
                     // The sender identity is that client's connection entity, the same for all its events.
                     let who: Vec<Entity> = got.iter().filter(|x| x.0 == ty && sent.contains(&x.1)).map(|x| x.3).collect();
                     if let Some(first) = who.first() {
@@ -376,7 +388,9 @@ impl C17 {
     }
 }
 
-fn check_lists(v: &mut Vec<Violation>, step: usize, what: &str, sent: &[u32], recv: &[u32], ordered: bool) {
+/// `complete == false`: the connection went away during the run - nothing has to arrive, but what arrives
+/// arrives once, on its channel and in sending order.
+fn check_lists(v: &mut Vec<Violation>, step: usize, what: &str, sent: &[u32], recv: &[u32], ordered: bool, complete: bool) {
     let mut push = |oracle: &str, detail: String| {
         if v.len() < 16 {
             v.push(Violation { prop: "C17".into(), oracle: oracle.into(), detail, step });
@@ -384,6 +398,9 @@ fn check_lists(v: &mut Vec<Violation>, step: usize, what: &str, sent: &[u32], re
     };
     for s in sent {
         let n = recv.iter().filter(|r| *r == s).count();
+        if n == 0 && !complete {
+            continue;
+        }
         if n == 0 {
             push("message_lost", format!("{what}: seq {s} never arrived (sent {} received {})", sent.len(), recv.len()));
             return;
@@ -395,6 +412,13 @@ fn check_lists(v: &mut Vec<Violation>, step: usize, what: &str, sent: &[u32], re
     }
     if let Some(r) = recv.iter().find(|r| !sent.contains(r)) {
         push("wrong_channel", format!("{what}: received seq {r} that was sent as another type"));
+        return;
+    }
+    if ordered && !complete {
+        let kept: Vec<u32> = sent.iter().copied().filter(|x| recv.contains(x)).collect();
+        if kept != recv {
+            push("out_of_order", format!("{what}: arrival order differs from sending order: sent {sent:?} received {recv:?}"));
+        }
         return;
     }
     if ordered && sent != recv {
@@ -455,6 +479,11 @@ impl Engine for C17 {
                     }
                 }
             }
+        }
+        if clients == 2 && r.chance(20) && steps.len() > 4 {
+            // One of two clients goes away somewhere in the run; the other one must not notice.
+            let at = r.range(1, steps.len() - 1);
+            steps.insert(at, S17::Close { client: r.below(2) as u8 });
         }
         T17 { clients, steps, late_start: if r.chance(30) { r.range(1, 3) as u8 } else { 0 } }
     }
@@ -545,6 +574,24 @@ impl Engine for C17 {
         ];
         vec![
             Directed { id: "late_start", trace: T17 { clients: 2, steps: vec![S17::ServerFrame, S17::ClientFrame { client: 0 }, S17::ClientFrame { client: 1 }], late_start: 2 }, symptom_oracles: vec![] },
+            Directed {
+                id: "peer_gone",
+                trace: T17 {
+                    clients: 2,
+                    steps: vec![
+                        S17::CEmit { client: 0, ch: 0, len: 4 },
+                        S17::ClientFrame { client: 0 },
+                        S17::Close { client: 0 },
+                        S17::SEmit { ch: 0, len: 4 },
+                        S17::SEmit { ch: 1, len: 4 },
+                        S17::ServerFrame,
+                        S17::Release { client: 1, to_server: false, what: Rel::All },
+                        S17::ClientFrame { client: 1 },
+                    ],
+                    late_start: 0,
+                },
+                symptom_oracles: vec![],
+            },
             Directed { id: "F7", trace: T17 { clients: 1, steps: pile, late_start: 0 }, symptom_oracles: vec![] },
             Directed { id: "F7up", trace: T17 { clients: 1, steps: pile_up, late_start: 0 }, symptom_oracles: vec![] },
             Directed { id: "F16", trace: T17 { clients: 1, steps: torn, late_start: 0 }, symptom_oracles: vec![] },
